@@ -10,7 +10,7 @@
 #include <stdlib.h>
 #include <string.h>
 
-#define MAXK 40
+#define MAXK 64
 static const char *uni[MAXK + 1]; /* key id -> string, ids 1..nuni */
 static int nuni;
 static char longkey[400], longkey2[400];
@@ -568,6 +568,18 @@ static void big_universe(int hash)
 	nuni = 0;
 	for (unsigned i = 0; i < sizeof base / sizeof *base; i++)
 		uni[++nuni] = base[i];
+	/* one name of every remaining length up to 22, and 33: with the ones above, every tail length 0..12 of the block hash,
+	 * each in a short and a long form; all characters of a name differ (no tail byte can stand in for another) */
+	static char lenkey[16][40];
+	static const int lens[] = {6, 8, 9, 14, 15, 16, 17, 18, 19, 20, 21, 22, 33};
+	static const char alnum[] = "qwertyuiopasdfghjklzxcvbnmQWERTYUIOPASDFGHJKLZXCVBNM9876543210";
+	for (unsigned i = 0; i < sizeof lens / sizeof *lens; i++)
+	{
+		for (int j = 0; j < lens[i]; j++)
+			lenkey[i][j] = alnum[(i * 5 + (unsigned)j) % 62];
+		lenkey[i][lens[i]] = 0;
+		uni[++nuni] = lenkey[i];
+	}
 	memset(longkey, 'L', 300);
 	longkey[300] = 0;
 	memset(longkey2, 'L', 300);
